@@ -14,6 +14,7 @@ from sismic.model import Statechart, CompoundState, OrthogonalState, BasicState,
 
 ID = 'C12'
 LEVEL = 'fault_enumeration'
+RUN_LIMIT_CPU_S = 600     # one run enumerates hundreds of fault positions in the thorough tier
 BUDGET = {'quick': 25, 'thorough': 300}
 BLOCK = 4
 STREAM_ORDER = ['faults', 'chart', 'cfg']
